@@ -203,45 +203,57 @@ func (k Keeper) IncreasePoolRewards(ctx sdk.Context, pool types.StakingPool, rew
 	}
 
 	for _, delegator := range delegators {
-		// autocompound rewards
-		rewards := k.GetDelegatorRewards(ctx, delegator)
-		compoundInfo := k.GetCompoundInfoByAddress(ctx, delegator.String())
-		properties := k.govKeeper.GetNetworkProperties(ctx)
-		if compoundInfo.LastExecBlock+properties.AutocompoundIntervalNumBlocks > uint64(ctx.BlockHeight()) {
-			continue
+		// autocompound on a branch of the state: this runs in BeginBlock, where a panic halts the chain. A
+		// re-delegation that is refused (the validator was paused / jailed after proposing, the pool was
+		// slashed, a reward denom is not stakeable) or a payout the fee collector cannot cover discards the
+		// branch and leaves the rewards credited
+		cacheCtx, write := ctx.CacheContext()
+		if err := k.autocompoundRewards(cacheCtx, pool, delegator); err == nil {
+			write()
 		}
-		autoCompoundRewards := sdk.Coins{}
-		if compoundInfo.AllDenom {
-			autoCompoundRewards = rewards
-			k.RemoveDelegatorRewards(ctx, delegator)
-		} else {
-			for _, reward := range rewards {
-				rate := k.tokenKeeper.GetTokenInfo(ctx, reward.Denom)
-				if rate.StakeEnabled && reward.Amount.GTE(rate.StakeMin) && isWithinArray(reward.Denom, compoundInfo.CompoundDenoms) {
-					autoCompoundRewards = autoCompoundRewards.Add(reward)
-				}
-			}
-			if !autoCompoundRewards.IsZero() {
-				k.SetDelegatorRewards(ctx, delegator, rewards.Sub(autoCompoundRewards...))
+	}
+}
+
+func (k Keeper) autocompoundRewards(ctx sdk.Context, pool types.StakingPool, delegator sdk.AccAddress) error {
+	rewards := k.GetDelegatorRewards(ctx, delegator)
+	compoundInfo := k.GetCompoundInfoByAddress(ctx, delegator.String())
+	properties := k.govKeeper.GetNetworkProperties(ctx)
+	if compoundInfo.LastExecBlock+properties.AutocompoundIntervalNumBlocks > uint64(ctx.BlockHeight()) {
+		return nil
+	}
+	autoCompoundRewards := sdk.Coins{}
+	if compoundInfo.AllDenom {
+		autoCompoundRewards = rewards
+		k.RemoveDelegatorRewards(ctx, delegator)
+	} else {
+		for _, reward := range rewards {
+			rate := k.tokenKeeper.GetTokenInfo(ctx, reward.Denom)
+			if rate.StakeEnabled && reward.Amount.GTE(rate.StakeMin) && isWithinArray(reward.Denom, compoundInfo.CompoundDenoms) {
+				autoCompoundRewards = autoCompoundRewards.Add(reward)
 			}
 		}
 		if !autoCompoundRewards.IsZero() {
-			err := k.bankKeeper.SendCoinsFromModuleToAccount(ctx, authtypes.FeeCollectorName, delegator, autoCompoundRewards)
-			if err != nil {
-				panic(err)
-			}
-			err = k.Delegate(ctx, &types.MsgDelegate{
-				DelegatorAddress: delegator.String(),
-				ValidatorAddress: pool.Validator,
-				Amounts:          autoCompoundRewards,
-			})
-			if err != nil {
-				panic(err)
-			}
-			compoundInfo.LastExecBlock = uint64(ctx.BlockHeight())
-			k.SetCompoundInfo(ctx, compoundInfo)
+			k.SetDelegatorRewards(ctx, delegator, rewards.Sub(autoCompoundRewards...))
 		}
 	}
+	if autoCompoundRewards.IsZero() {
+		return nil
+	}
+	err := k.bankKeeper.SendCoinsFromModuleToAccount(ctx, authtypes.FeeCollectorName, delegator, autoCompoundRewards)
+	if err != nil {
+		return err
+	}
+	err = k.Delegate(ctx, &types.MsgDelegate{
+		DelegatorAddress: delegator.String(),
+		ValidatorAddress: pool.Validator,
+		Amounts:          autoCompoundRewards,
+	})
+	if err != nil {
+		return err
+	}
+	compoundInfo.LastExecBlock = uint64(ctx.BlockHeight())
+	k.SetCompoundInfo(ctx, compoundInfo)
+	return nil
 }
 
 func (k Keeper) GetMinDelegatorWithValue(ctx sdk.Context, pool types.StakingPool) (sdk.AccAddress, sdk.Int) {
